@@ -78,6 +78,17 @@ def check_offset(y, m, d, t, c):
                         % ((y, m, d, h, mi, s), (yy, mm, dd, hh, mmi, ss), float(diff)), dev))
     except Exception as ex:
         out.append(("readback", "get_full_date(utc=True) at %r raised %r" % ((y, m, d, h, mi, s), ex), None))
+    # the same through get_date (year, month, day with decimals)
+    try:
+        yy, mm, dd = a.get_date(utc=True)
+        diff = (Fraction(fast().n(yy, mm, int(dd))) * 86400 + (Fraction(dd) - int(dd)) * 86400
+                - civil_seconds(y, m, d, h, mi, s))
+        dev = abs(float(diff))
+        if dev > 2e-3:
+            out.append(("readback", "get_date(utc=True) of Epoch(%r, utc=True) = %r (%.4f s off)"
+                        % ((y, m, d, h, mi, s), (yy, mm, dd), float(diff)), dev))
+    except Exception as ex:
+        out.append(("readback", "get_date(utc=True) at %r raised %r" % ((y, m, d, h, mi, s), ex), None))
     return out
 
 
@@ -206,6 +217,46 @@ def run_api(block, ctx):
     ctx.sample({"history": list(block[0])})
 
 
+def check_forms(y, m, c):
+    """Every way of handing the civil date to Epoch (positional, one tuple, one list, datetime,
+    constructor or set()) applies the same UTC -> TT offset, with utc=True and with an override."""
+    import datetime
+    out = []
+    d, h = 15, 12
+    fd = d + h / 24.0
+    for kwn, kw in (("utc", {"utc": True}), ("override", {"leap_seconds": c + 1})):
+        try:
+            ref = Epoch(y, m, d, h, 0, 0.0, **kw).jde()
+        except Exception as ex:
+            out.append(("forms", "Epoch(%r, **%r) raised %r" % ((y, m, d, h, 0, 0.0), kw, ex), None))
+            continue
+        forms = [("day_fraction", lambda: Epoch(y, m, fd, **kw)),
+                 ("tuple", lambda: Epoch((y, m, fd), **kw)),
+                 ("list", lambda: Epoch([y, m, fd], **kw)),
+                 ("tuple6", lambda: Epoch((y, m, d, h, 0, 0.0), **kw)),
+                 ("set_args", lambda: _set(Epoch(), (y, m, fd), kw)),
+                 ("set_tuple", lambda: _set(Epoch(), ((y, m, fd),), kw)),
+                 ("set_list", lambda: _set(Epoch(2000, 1, 1.0), ([y, m, fd],), kw)),
+                 ("datetime", lambda: Epoch(datetime.datetime(y, m, d, h), **kw)),
+                 ("date_noon", lambda: Epoch(datetime.date(y, m, d), **kw) + 0.5)]
+        for lab, mk in forms:
+            try:
+                j = mk().jde()
+            except Exception as ex:
+                out.append(("forms", "%s form of %r with %r raised %r" % (lab, (y, m, fd), kw, ex), None))
+                continue
+            dev = abs(j - ref) * 86400.0
+            if dev > 1e-3:
+                out.append(("forms", "%s form of %r with %r gives JDE %r, positional form %r (%.3f s)"
+                            % (lab, (y, m, fd), kw, j, ref, dev), dev))
+    return out
+
+
+def _set(e, args, kw):
+    e.set(*args, **kw)
+    return e
+
+
 def run_states(block, ctx):
     prev = None
     for (y, m, c) in block:
@@ -227,6 +278,9 @@ def run_states(block, ctx):
                 for site, msg, dev in check_offset(y, m, d, t, c):
                     ctx.viol({"y": y, "m": m, "d": d, "h": t[0], "count": c,
                               "last_day": d == L}, msg, dev=dev, site=site)
+        ctx.evals += 18
+        for site, msg, dev in check_forms(y, m, c):
+            ctx.viol({"y": y, "m": m, "count": c, "forms": True}, msg, dev=dev, site=site)
         for k in range(0, 61):
             ctx.evals += 2
             for site, msg, dev in check_override(y, m, c, k):
@@ -240,6 +294,8 @@ def run_states(block, ctx):
 
 def replay_states(case):
     y, m, c = case["y"], case["m"], case["count"]
+    if case.get("forms"):
+        return [x[1] for x in check_forms(y, m, c)]
     if "override" in case:
         return [x[1] for x in check_override(y, m, c, case["override"])]
     if "d" in case:
